@@ -86,10 +86,45 @@ def run(tier, rep):
         else:
             desc = "%s, N=%d: %s: %s (scale %s)" % (v["routine"], c["n"], v["clause"], v["sum"], v["scale"])
         rep.violation(key, desc, v)
+    encounter_rows(rep, sc, quick)
     rep.assumptions += ["forces are linear in the source masses (unit-mass probing); the JACOBI routine (not linear in the masses) is compared with exact term lists on a rational lattice instead",
                         "tree gravity is decided only at opening angle 0 (all particles active, nothing ignored); the finite-opening-angle clause is sampled on one random cluster per run against the rigorous per-cell monopole bound and for shrinking with theta",
                         ]
     shutil.rmtree(sc, ignore_errors=True)
+
+
+def encounter_rows(rep, sc, quick):
+    """Encounter.tla: which particles MERCURIUS hands to its IAS15 sub-integration (the set the mode-1 force routine sums over)"""
+    res = common.run_tlc("Encounter", "Encounter", workers=1, coverage=False, timeout=900)
+    if res.violation:
+        rep.violation("model:Encounter:" + res.violation, "Encounter violates %s" % res.violation, {"tlc": res.trace[-4:]})
+        return
+    if not res.ok:
+        raise MachineryError("Encounter did not complete: %s" % res.out[-1500:])
+    rows = sorted(set(m.group(1).replace('\\"', '"') for m in re.finditer(r'^<<"E", "(.*)">>$', res.out, re.M)))
+    if len(rows) < 500:
+        raise MachineryError("Encounter printed only %d rows" % len(rows))
+    rep.add(states=res.distinct, transitions=res.states)
+    tf = os.path.join(sc, "enc_rows.ndjson")
+    open(tf, "w").write("\n".join(rows) + "\n")
+    out = os.path.join(sc, "enc_out.json")
+    r = common.run_worker(os.path.join(HERE, "w_encounter.py"), [tf, out, "1", str(common.seed())], timeout=3000)
+    if r.returncode != 0:
+        if r.returncode < 0:
+            rep.violation("crash:encounter", "real code crashed (signal %d) in a MERCURIUS step of the encounter lattice" % -r.returncode, {"stderr": r.stderr[-1500:]})
+            return
+        raise MachineryError("w_encounter failed: %s" % r.stderr[-2500:])
+    o = json.load(open(out))
+    if o["rows"] < 500:
+        raise MachineryError("only %d encounter rows executed" % o["rows"])
+    rep.add(evaluations=o["rows"], traces_validated_against_impl=o["rows"])
+    rep.cov["encounter_rows"] = {"executed": o["rows"], "of": o["of"]}
+    for v in o["violations"][:6]:
+        rw = v["row"]
+        rep.violation("encounter:%s:tt%d:%s" % (v["clause"], rw["tt"], "sep%d" % rw["sep"]),
+                      "MERCURIUS encounter bookkeeping differs from Encounter (N=%d N_active=%d testparticle_type=%d clusters %s at %d%% of the critical radius, variant %s): %s"
+                      % (rw["n"], rw["na"], rw["tt"], rw["cl"], rw["sep"], json.dumps(v["variant"]),
+                         ("got %s, specified %s" % (json.dumps(v["got"]), json.dumps(v["want"]))) if "got" in v else v.get("what")), v)
 
 
 def replay(path):
